@@ -438,6 +438,17 @@ func runC19(args []string) int {
 			if n > 1 {
 				jobs = append(jobs, &job{t: t, n: n, mode: "engine", in: in, vfirst: true}, &job{t: t, n: n, mode: "r1cs", in: in, vfirst: true})
 			}
+			if ti == 1 {
+				// 16 instances: the verifier's table evaluation takes its scaled-folding path from 16 entries on
+				in16 := make([][]*big.Int, 16)
+				for k := range in16 {
+					in16[k] = make([]*big.Int, t.NIn)
+					for i := range in16[k] {
+						in16[k][i] = rng.FieldElem(bnQ)
+					}
+				}
+				jobs = append(jobs, &job{t: t, n: 16, mode: "engine", in: in16}, &job{t: t, n: 16, mode: "engine", in: in16, vfirst: true}, &job{t: t, n: 16, mode: "r1cs", in: in16, vfirst: true})
+			}
 		}
 	}
 	// crossing / non-monotone series dependencies between instances (4 instances)
